@@ -170,8 +170,12 @@ fn spaces_from_bdl(bdl: &Data, id_maps: &IdMaps) -> Result<Vec<Space>, Error> {
 ///
 /// El polígono 3D del opaco se obtiene a partir de los datos de opaco y del espacio
 /// Para cada nivel, primero se gira el azimuth y luego se desplaza x, y, z
-fn wall_geometry(wall: &hulc::bdl::Wall, bdl: &Data) -> WallGeom {
-    let space = bdl.spaces.iter().find(|s| s.name == wall.space).unwrap();
+fn wall_geometry(wall: &hulc::bdl::Wall, bdl: &Data) -> Result<WallGeom, Error> {
+    let space = bdl
+        .spaces
+        .iter()
+        .find(|s| s.name == wall.space)
+        .ok_or_else(|| format_err!("Espacio {} del opaco {} no encontrado", wall.space, wall.name))?;
     let space_polygon = &space.polygon;
     let global_deviation = global_deviation_from_north(bdl);
 
@@ -184,7 +188,14 @@ fn wall_geometry(wall: &hulc::bdl::Wall, bdl: &Data) -> WallGeom {
         * match wall.location.as_deref() {
             // 1. Casos definidos por vértice
             Some(loc) if loc != "TOP" && loc != "BOTTOM" => {
-                let [p1, _] = space.polygon.edge_vertices(loc).unwrap();
+                let [p1, _] = space.polygon.edge_vertices(loc).ok_or_else(|| {
+                    format_err!(
+                        "Vértice {} desconocido en el espacio {} para el opaco {}",
+                        loc,
+                        space.name,
+                        wall.name
+                    )
+                })?;
                 point![
                     p1.x + wall.x + space.x,
                     p1.y + wall.y + space.y,
@@ -238,7 +249,14 @@ fn wall_geometry(wall: &hulc::bdl::Wall, bdl: &Data) -> WallGeom {
             // Definimos el polígono con inicio en 0,0 y ancho y alto según vértices y espacio
             // La "position (x, y, z)" que define el origen de coordenadas del opaco será la del primer vértice
             // Pero se calcula fuera de esta función
-            let [p1, p2] = space_polygon.edge_vertices(vertex).unwrap();
+            let [p1, p2] = space_polygon.edge_vertices(vertex).ok_or_else(|| {
+                format_err!(
+                    "Vértice {} desconocido en el espacio {} para el opaco {}",
+                    vertex,
+                    space.name,
+                    wall.name
+                )
+            })?;
             let width = (p2 - p1).magnitude();
             let height = space.height;
             vec![
@@ -249,18 +267,18 @@ fn wall_geometry(wall: &hulc::bdl::Wall, bdl: &Data) -> WallGeom {
             ]
         }
         _ => {
-            panic!("Definición de polígono de opaco {} desconocida", wall.name)
+            bail!("Definición de polígono de opaco {} desconocida", wall.name)
         }
     };
 
-    WallGeom {
+    Ok(WallGeom {
         azimuth: fround2(orientation_bdl_to_52016(
             global_deviation + space.angle_with_building_north + wall.angle_with_space_north,
         )),
         tilt: fround2(wall.tilt),
         position: Some(position),
         polygon,
-    }
+    })
 }
 
 /// Construye muros de la envolvente a partir de datos BDL
@@ -279,7 +297,7 @@ fn walls_from_bdl(bdl: &Data, id_maps: &IdMaps) -> Result<Vec<Wall>, Error> {
                     _ => None,
                 },
                 bounds: wall.bounds.into(),
-                geometry: wall_geometry(wall, bdl),
+                geometry: wall_geometry(wall, bdl)?,
             })
         })
         .collect::<Result<Vec<Wall>, _>>()
